@@ -96,6 +96,24 @@ def check_one(arg):
         fails.append(("enabled_rejected:" + rep["form"], "with handling enabled: %s line %s" % (on.kind, on.line), rep))
     elif fp.canon_repr(on.tree) != fp.canon_repr(refP.tree):
         fails.append(("enabled_tree_differs:" + rep["form"], "tree(sentinel(P,S), enabled) != tree(P)", rep))
+    # the same through a FortranFileReader (the option must reach the reader whatever its source is)
+    import os, shutil, tempfile
+    d = tempfile.mkdtemp(prefix="verif_c15_")
+    try:
+        pth = os.path.join(d, "prog.f90")
+        with open(pth, "w") as fh:
+            fh.write(src)
+        rdf = fp.FortranFileReader(pth, ignore_comments=True, include_omp_conditional_lines=True)
+        rdf.set_format(fp.FortranFormat(not fixed, False))
+        onf = fp.parse(src, std=std, rd=rdf)
+        if onf.kind != "tree":
+            fails.append(("enabled_rejected_file_reader:" + rep["form"],
+                          "file reader, handling enabled: %s line %s" % (onf.kind, onf.line), dict(rep, reader="file")))
+        elif fp.canon_repr(onf.tree) != fp.canon_repr(refP.tree):
+            fails.append(("enabled_tree_differs_file_reader:" + rep["form"],
+                          "file reader: tree(sentinel(P,S), enabled) != tree(P)", dict(rep, reader="file")))
+    finally:
+        shutil.rmtree(d, ignore_errors=True)
     off = fp.parse(src, std=std, rd=fp.reader(src, ignore_comments=True, free=not fixed))
     if off.kind != "tree":
         fails.append(("disabled_rejected:" + rep["form"], "with handling disabled: %s line %s" % (off.kind, off.line), rep))
